@@ -39,13 +39,14 @@ SIMPLE_DECODERS = [
     "multidecoder.decoders.network.normalize_path",
     "multidecoder.decoders.network.parse_url",
     "multidecoder.decoders.network.find_urls",
+    "multidecoder.decoders.path.find_windows_path",
 ]
 SHELL_FUNCS = ["multidecoder.decoders.shell.strip_carets", "multidecoder.decoders.shell.deobfuscate_cmd"]
 
 NOT_UNDER_CONTRACT = (
-    "decoders not (yet) under a deductive contract and covered only by the run-time DecoderOK stand-in: path.find_windows_path (ntpath), pe_file.find_pe_files (pefile), "
+    "decoders not (yet) under a deductive contract and covered only by the run-time DecoderOK stand-in: pe_file.find_pe_files (pefile), "
     "powershell.find_powershell_bytes (xortool floats); network.normalize_percent_encoding / _is_printable / is_ip / parse_ip / parse_ipv6 carry ASSUMED contracts "
-    "(re.sub callbacks, ipaddress, socket)"
+    "(re.sub callbacks, ipaddress, socket); ntpath.normpath / splitext are ASSUMED total and opaque, so the list indexes of find_windows_path into the normalised path are demoted to the stand-in"
 )
 
 
